@@ -135,6 +135,8 @@ type FakeConn struct {
 	// FailWrites: the next n Write calls fail with an I/O error and write nothing (fault injection).
 	FailWrites   int
 	FailedWrites int
+	// FailWritesOf: when non-zero only writes made by that scheduler thread count as "next" for FailWrites
+	FailWritesOf int
 	// WriteCap > 0: a Write blocks while the peer has that many unread segments queued (a collector
 	// that is alive but not reading, socket buffers full); closing either side unblocks it.
 	WriteCap int
@@ -197,7 +199,7 @@ func (c *FakeConn) Write(b []byte) (int, error) {
 		c.WritesAfterClose++
 		return 0, &net.OpError{Op: "write", Net: c.network, Err: net.ErrClosed}
 	}
-	if c.FailWrites > 0 {
+	if c.FailWrites > 0 && (c.FailWritesOf == 0 || c.FailWritesOf == vsched.CurID()) {
 		c.FailWrites--
 		c.FailedWrites++
 		return 0, &net.OpError{Op: "write", Net: c.network, Err: errors.New("injected write failure")}
